@@ -212,6 +212,14 @@ struct Dumper {
       if (MD->isStatic()) OS << ",\"staticMethod\":1";
       if (MD->isConst()) OS << ",\"constMethod\":1";
     }
+    {
+      std::string cs;
+      for (const ParmVarDecl *P : FD->parameters()) {
+        if (!cs.empty()) cs += ",";
+        cs += typeStr(P->getType());
+      }
+      str("csig", cs);
+    }
     // parameter reference kinds, useful for effect rules
     OS << ",\"pk\":\"";
     for (const ParmVarDecl *P : FD->parameters()) {
